@@ -17,6 +17,8 @@ INVARIANT InvFrame
 INVARIANT InvCompact
 INVARIANT InvUnique
 INVARIANT InvNoLeak
+INVARIANT InvTableInv
+INVARIANT InvTableAgree
 INVARIANT InvFamily
 INVARIANT InvSteps
 INVARIANT InvCarry
